@@ -683,6 +683,11 @@ func c01ImportFlag(c *Ctx) {
 	pk := p.Pkg("private/bufpkg/bufimage")
 	var rec *ssa.Function
 	recIdx := -1
+	type directSite struct {
+		caller *ssa.Function
+		set    ssa.Value
+	}
+	var directSites []directSite
 	desc := "no function of bufimage passes NewImageFile an isImport derived from a set parameter"
 	for _, sf := range p.SSAFuncsOf([]*packages.Package{pk}) {
 		for _, f := range allSSAFuncs(sf) {
@@ -735,6 +740,11 @@ func c01ImportFlag(c *Ctx) {
 															desc = "isImport = !ok of a lookup of the path in a member of the receiver of " + f.Name() + ", set from parameter #" + fmt.Sprint(i) + " of " + g.Name()
 														}
 													}
+												} else if rec == nil {
+													// the struct is built where the set is built: that function is the "caller"
+													rec, recIdx = f, -1
+													directSites = append(directSites, directSite{g, st.Val})
+													desc = "isImport = !ok of a lookup of the path in a member of the receiver of " + f.Name() + ", set in " + g.Name()
 												}
 											}
 										}
@@ -755,12 +765,20 @@ func c01ImportFlag(c *Ctx) {
 	// the non-recursive callers
 	okW, n := true, 0
 	why := ""
-	for _, cs := range p.callersIndex()[rec] {
-		caller := cs.Instr.Parent()
-		if caller == rec || recIdx >= len(cs.Call.Args) {
-			continue
+	sites := directSites
+	if recIdx >= 0 {
+		sites = nil
+		for _, cs := range p.callersIndex()[rec] {
+			caller := cs.Instr.Parent()
+			if caller == rec || recIdx >= len(cs.Call.Args) {
+				continue
+			}
+			sites = append(sites, directSite{caller, cs.Call.Args[recIdx]})
 		}
-		set := cs.Call.Args[recIdx]
+	}
+	for _, site := range sites {
+		caller, rawSet := site.caller, site.set
+		set := rawSet
 		if u, ok := set.(*ssa.UnOp); ok && u.Op == token.MUL {
 			set = u.X
 		}
@@ -774,7 +792,7 @@ func c01ImportFlag(c *Ctx) {
 				if u, ok := m.(*ssa.UnOp); ok && u.Op == token.MUL {
 					m = u.X
 				}
-				if m != set && mu.Map != cs.Call.Args[recIdx] {
+				if m != set && mu.Map != rawSet {
 					continue
 				}
 				n++
